@@ -186,7 +186,11 @@ func (X *Exec) oblige(st *State, kind, label, desc string, p token.Pos, goal *Te
 			return
 		}
 	}
-	if X.SafetyOff && label == "" {
+	if X.SafetyOff && label == "" && kind == "nil" && X.TopSpec != nil && X.TopSpec.Opts["keep"] == "nil" && len(X.inlineStack) == 0 &&
+		strings.HasPrefix(desc, "nil dereference: ") {
+		// `opt keep nil`: a path/effect contract that still claims its own nil dereferences (functions that take a
+		// decoded packet apart: a header field the peer may have left out must be tested before it is used)
+	} else if X.SafetyOff && label == "" {
 		switch kind {
 		case "bounds", "nil", "typeassert", "div", "pre":
 			// path/effect contract only: run-time panics of this function are not part of the claim
